@@ -3,7 +3,7 @@
 Require Import OV.Base.Bytes OV.Base.Py OV.Base.Insp_Struct OV.Gen.Insp_Consts OV.Model.Insp_Engine OV.Model.Insp_All.
 Require Import OV.Proofs.Insp_Engine OV.Proofs.Insp_FmtOk OV.Proofs.Insp_All.
 (* the translator-equivalence lemmas (gen_capture_equiv, gen_complete_equiv, gen_end_capture_equiv) are obligations too *)
-Require Import OV.Proofs.Insp_Equiv OV.Proofs.Insp_EngineEquiv OV.Proofs.Insp_FormatEquiv OV.Proofs.Insp_FormatMatchEquiv.
+Require Import OV.Proofs.Insp_Equiv OV.Proofs.Insp_EngineEquiv OV.Proofs.Insp_FormatEquiv OV.Proofs.Insp_FormatMatchEquiv OV.Proofs.Insp_HookEquiv.
 Open Scope N_scope.
 
 (* "Whatever an inspector retains for a region of the file is exactly the stream's bytes at that
